@@ -325,14 +325,14 @@ func c05Validator(e *Env) {
 			if !ok {
 				continue
 			}
-			bo, ok := iff.Cond.(*ssa.BinOp)
-			if !ok || (bo.Op != token.EQL && bo.Op != token.NEQ) {
+			bx, c, op, ok := constCompare(iff.Cond)
+			if !ok {
 				continue
 			}
-			c, ok := bo.Y.(*ssa.Const)
-			if !ok || c.Value == nil {
-				continue
-			}
+			bo := struct {
+				X  ssa.Value
+				Op token.Token
+			}{bx, op}
 			scopeRead := false
 			switch x := bo.X.(type) {
 			case *ssa.UnOp:
@@ -387,6 +387,42 @@ func c05Validator(e *Env) {
 	})
 	bg := len(findCalls(fn, e.P.ModPath+"/"+outputRel+".(Output).BuildDependencyGraph", true)) == 1
 	r.Check(okGraph && bg, "R05.3", key+"#uses-full-graph", "dependencies are graph.Deps(<subject's name>) of the graph built by Output.BuildDependencyGraph (all edge kinds: R07.1)")
+}
+
+// constCompare: cond is `x ==/!= const`, either written out or through a one-line predicate of module
+// code whose body is `return <param> ==/!= const` (e.g. Scope.IsShared); x is then the actual argument.
+func constCompare(cond ssa.Value) (x ssa.Value, c *ssa.Const, op token.Token, ok bool) {
+	switch v := cond.(type) {
+	case *ssa.BinOp:
+		if v.Op != token.EQL && v.Op != token.NEQ {
+			return nil, nil, 0, false
+		}
+		if k, isC := v.Y.(*ssa.Const); isC && k.Value != nil {
+			return v.X, k, v.Op, true
+		}
+		if k, isC := v.X.(*ssa.Const); isC && k.Value != nil {
+			return v.Y, k, v.Op, true
+		}
+	case *ssa.Call:
+		callee := v.Call.StaticCallee()
+		if callee == nil || len(callee.Blocks) != 1 || len(v.Call.Args) == 0 {
+			return nil, nil, 0, false
+		}
+		ret, isRet := callee.Blocks[0].Instrs[len(callee.Blocks[0].Instrs)-1].(*ssa.Return)
+		if !isRet || len(ret.Results) != 1 {
+			return nil, nil, 0, false
+		}
+		px, k, o, ok2 := constCompare(ret.Results[0])
+		if !ok2 {
+			return nil, nil, 0, false
+		}
+		for i, prm := range callee.Params {
+			if prm == px && i < len(v.Call.Args) {
+				return v.Call.Args[i], k, o, true
+			}
+		}
+	}
+	return nil, nil, 0, false
 }
 
 // ---------------- C15 ----------------
